@@ -74,7 +74,7 @@ static void compute_alloc_ctx(const Args &a, GenOpts &go, long chunk) {
     Outcome o0 = run_case(c0, r0);
     go.alloc_K = o0.alloc_requests;
     if (!c0.ops.empty()) {
-        Case c2 = c0; c2.ops[0].kind = OP_GSSVX; c2.ops[0].x.lwork = 16L << 20; c2.ops[0].x.work_align = 0;
+        Case c2 = c0; for (auto &q : c2.ops) { q.kind = OP_GSSVX; q.x.lwork = 16L << 20; q.x.work_align = 0; }   // the marks of the last call are kept
         Outcome o2 = run_case(c2, r0);
         long mx = 0; std::vector<long> b;
         for (long m : o2.stack_marks) { if (m > 0) b.push_back(m); mx = std::max(mx, m); }
